@@ -22,7 +22,8 @@ CLAIMED = {
     "C01": ("theorems over all trees x all histories (ticks with arbitrary outcomes/guards/clock, root interrupts, blackboard "
             "pokes, any length): every leaf log in every reachable state is accepted by the lifecycle automaton and is "
             "RUNNING exactly when inside a round (C01_protocol); clause lemmas on the automaton; contiguity of one leaf "
-            "tick; exactly one terminate(INVALID) on interruption", P, BT),
+            "tick; exactly one terminate(INVALID) on interruption; a leaf that was RUNNING and is ticked gets exactly one "
+            "update() and nothing else unless it completes (C01_running_update_alone, for every reachable state)", P, BT),
     "C02": ("theorems: in every reachable state a non-RUNNING node has no RUNNING descendant / every RUNNING node has a "
             "RUNNING parent; stop(INVALID) leaves the whole subtree INVALID and appends exactly one terminate(INVALID) to "
             "every non-INVALID leaf, for the root and for every subtree of every reachable state", P,
@@ -42,7 +43,8 @@ CLAIMED = {
     "C06": ("theorems: dictionary laws of the storage association list; per-operation refinement (setattr / getattr / get "
             "incl. nested paths / exists / set with overwrite on-off, plain and nested to any depth / unset / statics) of "
             "the storage to put/del/get on the resolved location; read-your-writes across two clients naming one location "
-            "differently", P, BBN + "Known finding K5 shows through clear-on-unregister (value of a still used location)."),
+            "differently; namespaced dotted access (client.a.b.key) = get/set of the absolute name, namespace cache = closure "
+            "of the registered keys (C06b)", P, BBN + "Known finding K5 shows through clear-on-unregister (value of a still used location)."),
     "C07": ("theorems for every client and state: a denied attribute write/read, get, exists, set (any nesting, any "
             "overwrite flag) returns AttributeError and leaves storage/metadata/clients/registry unchanged; reads never "
             "change the store; storage changes only with write access; unset through an unregistered key raises and "
@@ -56,11 +58,11 @@ CLAIMED = {
     "C09": ("theorems: every child-ticking decorator ticks its child exactly once before deciding (tick shape with trace), "
             "the documented status table for all stateless decorators / Count / StatusToBlackboard, publication on the "
             "blackboard incl. nested names, Count counters per tick and on interrupt, no RUNNING node below a decorator "
-            "that finished", P, BT),
+            "that finished + TRANSLATOR tie: the update() of the 7 status-map decorators, PassThrough, Condition and Count.update/terminate/setup are re-translated from the working tree to Lean on every run (harness/py2lean.py -> lean/PyTreesGen/C09.lean) and proved equal to the model's definitions for all arguments (C09_gen_* in Props/C09g.lean)", P, BT),
     "C10": ("theorems: Retry/Repeat update, reset on entry and round lemmas (j-th failure/success), Repeat -1 never "
             "succeeds, Condition, Timeout init/update/cancel through the tick, EternalGuard false/true with exact trace, "
             "OneShot latched tick, latch set exactly by a covered completion, never cleared, unaffected by interruption, "
-            "kept over every history", P, BT + "Time is an integer; float rounding of monotonic()+duration is outside the model."),
+            "kept over every history + TRANSLATOR tie: Retry/Repeat update() and initialise() are re-translated from the working tree to Lean on every run (harness/py2lean.py -> lean/PyTreesGen/C10.lean) and proved equal to the model's definitions for all arguments (C10_gen_* in Props/C10g.lean)", P, BT + "Time is an integer; float rounding of monotonic()+duration is outside the model."),
     "C11": ("theorems over a pointer heap: which calls are rejected, rejected calls leave the heap unchanged, the "
             "consistency invariant (child lists / parent links agree, no duplicates, one parent, remembered child is a "
             "child) is preserved by add / insert / remove / replace / remove-all / decorator construction, removed "
@@ -84,16 +86,16 @@ CLAIMED = {
     "C15": ("theorems over all List Char: absolute_name idempotent, identity on absolute keys, placement inside the "
             "namespace with or without trailing separator, relative_name inverse / KeyError outside, same-location iff "
             "same normalised namespace and key, client namespace normalisation, namespace closure = proper prefixes; + "
-            "EXHAUSTIVE correspondence over {/,a,b} namespaces <= 4 x keys <= 5", P, "Strings are List Char; CPython str "
-            "methods (startswith/endswith/strip/rsplit) are trusted to be what the model says, checked exhaustively on "
-            "short strings."),
+            "EXHAUSTIVE correspondence over {/,a,b} namespaces <= 4 x keys <= 5 + TRANSLATOR tie: Blackboard.absolute_name and relative_name are re-translated from the working tree to Lean on every run (harness/py2lean.py -> lean/PyTreesGen/C15.lean) and proved equal to the model's definitions for all arguments (C15_gen_* in Props/C15g.lean)", P, "Strings are List Char; CPython str "
+            "methods (startswith/endswith/strip/rsplit) are trusted to be what PyTreesGen/Prelude.lean and the model say, "
+            "checked exhaustively on short strings."),
     "C16": ("theorems: push bounded and most-recent, nothing recorded while disabled, the bound holds in every reachable "
             "state (C16_bounded over all operation histories), exactly one record with the documented type per store "
             "access for every outcome of setattr/getattr/unset/set", P, BBN + "Objects inside records are compared opaquely."),
     "C17": ("theorems on every stock leaf update for every blackboard content (exists/wait, value/wait-value with the "
             "operator table, multi-value check with evalChecks/publish, set/unset, BlackboardToStatus round trip) and round "
             "lemmas for TickCounter, StatusQueue (replay / eventually / cycle), SuccessEveryN (n | k), Timer; initialise "
-            "runs exactly when the leaf was not RUNNING", P, BT + "Integer clock."),
+            "runs exactly when the leaf was not RUNNING + TRANSLATOR tie: SuccessEveryN.update, TickCounter.update/initialise are re-translated from the working tree to Lean on every run (harness/py2lean.py -> lean/PyTreesGen/C17.lean) and proved equal to the model's definitions for all arguments (C17_gen_* in Props/C17g.lean)", P, BT + "Integer clock."),
     "C18": ("theorems: XOR fold = parity (two options exact, even number fails, three-true counterexample K3), either_or / "
             "pick-up / oneshot shapes, flag publication and guards, memory keeps the choice, one-shot latch over every "
             "history; the all-histories general-n promises are carried by the correspondence (library-built idiom vs "
@@ -138,7 +140,7 @@ def main():
                 pid, "no check registered yet in this build round (model/theorems under construction); not claimed")})
     m = {
         "version": 1,
-        "setup_cmd": "cd lean && lake build PyTreesModel PyTreesProofs driver",
+        "setup_cmd": "cd lean && lake build PyTreesModel PyTreesGen PyTreesProofs driver",
         "hooks": {
             "guard": "PY_TREES_VERIF",
             "enable": "none needed: the harness observes the real classes in-process (instance-level tick wrappers, probe "
